@@ -52,7 +52,23 @@ pub fn judge(texts: &[(String, String)], base: &str) -> Outcome {
     };
     let mut probs = Vec::new();
     match serde_yaml::from_str::<serde_yaml::Value>(&yaml) {
-        Ok(y) => probs.extend(validate::validate(&y, &validate::explicit_operation_ids(texts))),
+        Ok(y) => probs.extend(validate::validate(&y, &validate::explicit_operation_ids(texts)).into_iter().filter(|p| {
+            // a property name the program itself writes twice is the program's business
+            if p.class != "parameter listed twice" {
+                return true;
+            }
+            let name = p.detail.rsplit(' ').next().unwrap_or("");
+            let needle = format!("'{name}");
+            let written: usize = texts
+                .iter()
+                .map(|(_, t)| {
+                    t.match_indices(&needle)
+                        .filter(|(i, _)| !t[i + needle.len()..].starts_with(|c: char| c.is_ascii_alphanumeric() || matches!(c, '$' | '@' | '_' | '-')))
+                        .count()
+                })
+                .sum();
+            written < 2
+        })),
         Err(e) => probs.push(validate::Problem {
             class: "emitted text is not YAML".into(),
             detail: e.to_string(),
